@@ -330,7 +330,7 @@ def watch_case(sim, seed, i):
     that no regeneration started after that save touches the disk."""
     import importlib
     W = importlib.import_module("checks.C20")
-    doc = W.make_case(M.derive(seed, "c11watch", i).next() % (1 << 40), i, force_end="unfinished_file")
+    doc = W.make_case(M.derive(seed, "c11watch", i).next() % (1 << 40), i, force_end="unfinished_file" if i % 3 else "invalid_from_start")
     viol, st = W.execute(sim, doc)
     out = []
     if viol is not None and viol.get("class") == "output_written_while_package_invalid":
